@@ -65,9 +65,10 @@ type Cfg struct {
 	Gossip    bool // replicas run the mempool check on every submitted transaction before each block
 	Byzantine int  // percent of the transactions the mempool check refuses that are put into blocks anyway
 	// Schedule knobs
-	Jumps   bool // occasionally jump block time across cycle/year boundaries
-	Absents bool // occasionally starve a validator of votes
-	Evid    bool // occasionally include duplicate-vote evidence
+	Jumps       bool                   // occasionally jump block time across cycle/year boundaries
+	Absents     bool                   // occasionally starve a validator of votes
+	ForceAbsent func(h int64) []string // validators (hex addresses) that do not sign the commit of block h-1, on top of the schedule
+	Evid        bool                   // occasionally include duplicate-vote evidence
 	// Hooks
 	Setup      func(r *hist.Runner) error
 	PerReplica func(r *hist.Runner, h int64, i int, base proto.Recipe, sofar *hist.Block) *proto.Recipe
@@ -136,6 +137,9 @@ func Run(cfg Cfg) *Result {
 			plan.Txs = cfg.FilterPlan(c, plan.Txs)
 		}
 		plan.DtMs, plan.Absent, plan.Evidence = sched.next(c)
+		if cfg.ForceAbsent != nil {
+			plan.Absent = append(plan.Absent, cfg.ForceAbsent(c.H)...)
+		}
 		if cfg.PerReplica != nil {
 			h := c.H
 			plan.PerReplica = func(i int, base proto.Recipe, sofar *hist.Block) *proto.Recipe {
